@@ -1035,6 +1035,15 @@ func c16PeerTypedAlloc(p *load.Program, r *core.Report) {
 				if cc.IsInvoke() && cc.Method.Name() == "Size" && cc.Value == ssa.Value(f.Params[0]) {
 					size = true
 				}
+				// or the extent the peer has declared in the type itself: the type goes to a helper
+				// that multiplies the lengths (reflect.Type.Len) of the arrays it is made of
+				if g := staticCallee(cc); g != nil && len(cc.Args) == 1 && cc.Args[0] == ssa.Value(f.Params[0]) && len(g.Params) == 1 {
+					eachInstr(g, func(x ssa.Instruction) {
+						if c2 := callCommon(x); c2 != nil && c2.IsInvoke() && c2.Method.Name() == "Len" && c2.Value == ssa.Value(g.Params[0]) {
+							size = true
+						}
+					})
+				}
 				if b, ok := cc.Value.(*ssa.Builtin); ok && b.Name() == "len" && len(cc.Args) == 1 && cc.Args[0] == ssa.Value(f.Params[2]) {
 					ln = true
 				}
@@ -1045,7 +1054,7 @@ func c16PeerTypedAlloc(p *load.Program, r *core.Report) {
 		}
 	}
 	if pred == nil {
-		r.Bad(rule, "C16.B3p|predicate", "", "", "a proportion predicate (n * T.Size() against len(packet)) exists in net/edf", "none found: values of peer-declared types (arrays whose length is part of the type) are allocated without any relation to the size of the input")
+		r.Bad(rule, "C16.B3p|predicate", "", "", "a proportion predicate (the extent of n values of T — T.Size() or the array lengths declared in T — against len(packet)) exists in net/edf", "none found: values of peer-declared types (arrays whose length is part of the type) are allocated without any relation to the size of the input")
 		return
 	}
 	isPred := func(in ssa.Instruction, t ssa.Value) bool {
